@@ -334,7 +334,7 @@ pub fn build_dom(f: &Features, shape: &[Option<usize>], labels: &[u64]) -> Vec<E
     let mut els: Vec<El> = Vec::new();
     for (i, par) in shape.iter().enumerate() {
         let (ty, id, flags) = label(f, labels[i]);
-        let prev = par.and_then(|p| (0..i).rev().find(|j| els[*j].parent == Some(p)));
+        let prev = (0..i).rev().find(|j| els[*j].parent == *par);
         els.push(El { ty, id, flags, parent: *par, prev });
     }
     els
@@ -454,11 +454,29 @@ pub fn mentions_not(l: &List) -> bool {
 
 /// Enumerate every DOM with <= maxn elements over the features; calls `f(dom)`; stops when it
 /// returns false. Returns the number of DOMs visited.
-pub fn for_each_dom(feat: &Features, maxn: usize, mut f: impl FnMut(&[El]) -> bool) -> u64 {
+pub fn for_each_dom(feat: &Features, maxn: usize, f: impl FnMut(&[El]) -> bool) -> u64 {
+    for_each_dom_with(feat, maxn, false, f)
+}
+
+/// forests (several top-level elements, siblings of each other) stand for trees with one more,
+/// unlabelled, root element: a sibling relation between the top-level elements costs no element
+pub fn forest_shapes(n: usize) -> Vec<Vec<Option<usize>>> {
+    match n {
+        2 => vec![vec![None, None]],
+        3 => vec![vec![None, None, None], vec![None, None, Some(1)], vec![None, Some(0), None]],
+        _ => vec![],
+    }
+}
+
+pub fn for_each_dom_with(feat: &Features, maxn: usize, forests: bool, mut f: impl FnMut(&[El]) -> bool) -> u64 {
     let nl = label_count(feat);
     let mut count = 0u64;
     for n in 1..=maxn {
-        for shape in shapes(n) {
+        let mut all = shapes(n);
+        if forests {
+            all.extend(forest_shapes(n));
+        }
+        for shape in all {
             let total = nl.pow(n as u32);
             let mut labels = vec![0u64; n];
             for k in 0..total {
